@@ -162,7 +162,14 @@ func main() {
 		fmt.Fprintf(os.Stderr, "check: unknown tier %q\n", *tier)
 		os.Exit(2)
 	}
-	os.Exit(runCheck(id, pc, *tier, *replay, seed, *scale, *repeat, *shardsFlag))
+	rc := runCheck(id, pc, *tier, *replay, seed, *scale, *repeat, *shardsFlag)
+	if rc == 0 && os.Getenv("VERIF_KEEP_WORK") == "" {
+		// a clean run leaves nothing behind (replays and evidence live elsewhere)
+		for _, k := range []string{*tier, "replay"} {
+			_ = os.RemoveAll(filepath.Join(root(), ".work", fmt.Sprintf("%s-%s-p%d", id, k, os.Getpid())))
+		}
+	}
+	os.Exit(rc)
 }
 
 func envOr(k, d string) string {
@@ -176,9 +183,12 @@ func runCheck(id string, pc propCfg, tier, replay string, seed uint64, scale str
 	start := time.Now()
 	rt := root()
 	harness := filepath.Join(rt, "harness")
-	work := filepath.Join(rt, ".work", id+"-"+tier)
+	// one work directory per invocation: two runs of the same check at the same
+	// time (e.g. against different VERIF_REPO trees) must not share journals,
+	// stats files and the test binary
+	work := filepath.Join(rt, ".work", fmt.Sprintf("%s-%s-p%d", id, tier, os.Getpid()))
 	if replay != "" {
-		work = filepath.Join(rt, ".work", id+"-replay")
+		work = filepath.Join(rt, ".work", fmt.Sprintf("%s-replay-p%d", id, os.Getpid()))
 	}
 	_ = os.RemoveAll(work)
 	if err := os.MkdirAll(work, 0o755); err != nil {
